@@ -1,22 +1,46 @@
 (* C13.v — Stack is LIFO and never holds more values than its capacity
    Statements only: every theorem is closed by [exact] of a lemma proved elsewhere, and its
-   axioms are printed.  Generated once by tools/mkprop.py from the proved lemmas' statements. *)
-From Verif Require Import Base Seq Coll StackProofs.
+   axioms are printed.  Generated once by tools/mkprop.py from the proved lemmas' statements. 
+   Round 2 (polish): an [Example] of non-vacuity beside every theorem with hypotheses (data in
+   StackProofs2.v) and, from C13_histories_compose on, the stack discipline for arbitrary interleavings
+   (frame rule, matching push), the top-to-bottom view, and the pool-level constructors/operations. *)
+From Verif Require Import Base Sorter Value Seq Coll Pool PoolFrame StackProofs StackProofs2.
+Local Open Scope nat_scope.
 
 Theorem C13_never_exceeds_capacity :
   forall (A : Type) (cap : nat) (ops : list (kop A)) (l : list A),
          length l <= cap -> length (fst (krun A cap l ops)) <= cap.
 Proof. exact C13_bound. Qed.
 
+(* non-vacuity: a stack AT capacity (3 values, capacity 3; top = 3) and a 9-step history pushing past
+   capacity and popping past empty *)
+Example C13_never_exceeds_capacity_example :
+  (length ex_stack <= 3)%nat /\
+  krun Z 3 ex_stack ex_kops =
+    ([7]%Z, [KPanic Z; KVal Z 3%Z; KUnit Z; KPanic Z; KVal Z 5%Z; KVal Z 2%Z; KVal Z 1%Z; KPanic Z; KUnit Z]) /\
+  (length (fst (krun Z 3 ex_stack ex_kops)) <= 3)%nat.
+Proof.
+  split; [vm_compute; lia|]. split; [vm_compute; reflexivity|].
+  apply C13_never_exceeds_capacity. vm_compute; lia.
+Qed.
+
 Theorem C13_push_on_full_panics_unchanged :
   forall (A : Type) (cap : nat) (l : list A) (v : A),
          length l = cap -> kstep A cap l (KPush A v) = (l, KPanic A).
 Proof. exact C13_push_full_panics. Qed.
 
+Example C13_push_on_full_panics_unchanged_example :
+  length ex_stack = 3%nat /\ kstep Z 3 ex_stack (KPush Z 4%Z) = (ex_stack, KPanic Z).
+Proof. split; reflexivity. Qed.
+
 Theorem C13_push_adds_on_top :
   forall (A : Type) (cap : nat) (l : list A) (v : A),
          length l < cap -> kstep A cap l (KPush A v) = (v :: l, KUnit A).
 Proof. exact C13_push_ok. Qed.
+
+Example C13_push_adds_on_top_example :
+  (length [2; 1]%Z < 3)%nat /\ kstep Z 3 [2; 1]%Z (KPush Z 9%Z) = ([9; 2; 1]%Z, KUnit Z).
+Proof. split; [vm_compute; lia|reflexivity]. Qed.
 
 Theorem C13_pop_on_empty_panics_unchanged :
   forall (A : Type) (cap : nat), kstep A cap [] (KPop A) = ([], KPanic A).
@@ -27,19 +51,131 @@ Theorem C13_pop_returns_most_recent :
          kstep A cap (v :: l) (KPop A) = (l, KVal A v).
 Proof. exact C13_pop_lifo. Qed.
 
+Example C13_pop_returns_most_recent_example : kstep Z 3 ex_stack (KPop Z) = ([2; 1]%Z, KVal Z 3%Z).
+Proof. reflexivity. Qed.
+
 Theorem C13_push_then_pop :
   forall (A : Type) (cap : nat) (l : list A) (v : A),
          length l < cap -> krun A cap l [KPush A v; KPop A] = (l, [KUnit A; KVal A v]).
 Proof. exact C13_push_pop. Qed.
+
+Example C13_push_then_pop_example :
+  (length [2; 1]%Z < 3)%nat /\ krun Z 3 [2; 1]%Z [KPush Z 9%Z; KPop Z] = ([2; 1]%Z, [KUnit Z; KVal Z 9%Z]).
+Proof. split; [vm_compute; lia|reflexivity]. Qed.
 
 Theorem C13_panic_leaves_unchanged :
   forall (A : Type) (cap : nat) (l : list A) (o : kop A) (l' : list A),
          kstep A cap l o = (l', KPanic A) -> l' = l.
 Proof. exact C13_panic_frame. Qed.
 
+Example C13_panic_leaves_unchanged_example :
+  kstep Z 3 ex_stack (KPush Z 4%Z) = (ex_stack, KPanic Z) /\ kstep Z 3 [] (KPop Z) = ([], KPanic Z).
+Proof. split; reflexivity. Qed.
+
 Theorem C13_constructor_capacity_covers_size :
   forall (A : Type) (dflt : nat) (vs : list A), length vs <= Nat.max dflt (length vs).
 Proof. exact C13_ctor_bound. Qed.
+
+(* non-vacuity: 33 = 2*16+1 initial values (more than the default capacity 16): the constructor of the
+   pool model gives capacity 33, not 16 *)
+Example C13_constructor_capacity_covers_size_example :
+  build (VInt 0 0) CStack (repeat (VInt 0 5) 33) = Ret (OStk 33 (repeat (VInt 0 5) 33)) /\
+  build (VInt 0 0) CStack (repeat (VInt 0 5) 2) = Ret (OStk 16 (repeat (VInt 0 5) 2)).
+Proof. split; vm_compute; reflexivity. Qed.
+
+Theorem C13_histories_compose :
+  forall (A : Type) (cap : nat) (ops1 ops2 : list (kop A)) (l : list A),
+         krun A cap l (ops1 ++ ops2) =
+         (fst (krun A cap (fst (krun A cap l ops1)) ops2),
+          snd (krun A cap l ops1) ++ snd (krun A cap (fst (krun A cap l ops1)) ops2)).
+Proof. exact krun_app. Qed.
+
+Theorem C13_what_lies_below_is_never_touched :
+  forall (A : Type) (ops : list (kop A)) (c : nat) (u l : list A),
+         no_clear A ops ->
+         ~ In (KPanic A) (snd (krun A c u ops)) ->
+         krun A (c + length l) (u ++ l) ops = (fst (krun A c u ops) ++ l, snd (krun A c u ops)).
+Proof. exact stack_frame_rule. Qed.
+
+(* non-vacuity: the balanced interleaving ex_mid = push 8, push 9, pop, pop, push 10, pop needs capacity 2
+   on its own; on top of the three values of ex_stack (capacity 2+3) it gives the same results *)
+Example C13_what_lies_below_is_never_touched_example :
+  no_clear Z ex_mid /\ ~ In (KPanic Z) (snd (krun Z 2 [] ex_mid)) /\
+  krun Z 2 [] ex_mid = ([], [KUnit Z; KUnit Z; KVal Z 9%Z; KVal Z 8%Z; KUnit Z; KVal Z 10%Z]) /\
+  krun Z (2 + length ex_stack) ([] ++ ex_stack) ex_mid = (fst (krun Z 2 [] ex_mid) ++ ex_stack, snd (krun Z 2 [] ex_mid)).
+Proof.
+  assert (NC : no_clear Z ex_mid) by (intros H; vm_compute in H; intuition discriminate).
+  assert (NP : ~ In (KPanic Z) (snd (krun Z 2 [] ex_mid))) by (intros H; vm_compute in H; intuition discriminate).
+  split; [exact NC|]. split; [exact NP|]. split; [vm_compute; reflexivity|].
+  apply C13_what_lies_below_is_never_touched; assumption.
+Qed.
+
+Theorem C13_pop_returns_matching_push_for_every_interleaving :
+  forall (A : Type) (c : nat) (mid : list (kop A)) (l : list A) (v : A),
+         no_clear A mid ->
+         ~ In (KPanic A) (snd (krun A c [] mid)) ->
+         fst (krun A c [] mid) = [] ->
+         krun A (c + S (length l)) l (KPush A v :: mid ++ [KPop A]) =
+         (l, KUnit A :: snd (krun A c [] mid) ++ [KVal A v]).
+Proof. exact pop_returns_matching_push. Qed.
+
+(* non-vacuity: push 4, the interleaving ex_mid, pop — on the stack [3;2;1] with capacity 2+4: the last pop returns 4 *)
+Example C13_pop_returns_matching_push_example :
+  krun Z 6 ex_stack (KPush Z 4%Z :: ex_mid ++ [KPop Z]) =
+    (ex_stack, [KUnit Z; KUnit Z; KUnit Z; KVal Z 9%Z; KVal Z 8%Z; KUnit Z; KVal Z 10%Z; KVal Z 4%Z]).
+Proof. vm_compute; reflexivity. Qed.
+
+Theorem C13_view_lists_top_to_bottom :
+  forall (A : Type) (vs : list A) (cap : nat) (l : list A),
+         length vs + length l <= cap ->
+         krun A cap l (map (KPush A) vs) = (rev vs ++ l, map (fun _ : A => KUnit A) vs).
+Proof. exact pushes_view. Qed.
+
+Example C13_view_lists_top_to_bottom_example :
+  krun Z 5 [1]%Z (map (KPush Z) [2; 3; 4]%Z) = ([4; 3; 2; 1]%Z, [KUnit Z; KUnit Z; KUnit Z]).
+Proof. vm_compute; reflexivity. Qed.
+
+Theorem C13_popping_everything_yields_top_to_bottom :
+  forall (A : Type) (l : list A) (cap : nat),
+         krun A cap l (repeat (KPop A) (S (length l))) = ([], map (KVal A) l ++ [KPanic A]).
+Proof. exact pops_drain. Qed.
+
+Theorem C13_pool_constructors_within_capacity :
+  forall (zero : val) (l : list val),
+         build zero CStack l = Ret (OStk (Nat.max default_stack_cap (length l)) l) /\
+         length l <= Nat.max default_stack_cap (length l) /\
+         default_stack_cap <= Nat.max default_stack_cap (length l).
+Proof. exact pool_stack_constructors_within_capacity. Qed.
+
+Theorem C13_pool_make_stack :
+  forall (zero : val) (p : pool) (cap : nat),
+         step zero p (MakeEmpty CStack) = (p ++ [OStk default_stack_cap []], RNew) /\
+         (cap <> 0 -> step zero p (MakeCap CStack cap) = (p ++ [OStk cap []], RNew)) /\
+         step zero p (MakeCap CStack 0) = (p, RPanic).
+Proof. exact pool_make_stack. Qed.
+
+Theorem C13_pool_stack_ops_are_the_stack_machine :
+  forall (zero : val) (p : list obj) (o cap : nat) (l : list val) (v : val),
+         o < length p ->
+         get p o = OStk cap l ->
+         (nth o (fst (step zero p (Push o v))) ODead = OStk cap (fst (kstep val cap l (KPush val v))) /\
+          snd (step zero p (Push o v)) = kobs_ret (snd (kstep val cap l (KPush val v)))) /\
+         (nth o (fst (step zero p (Pop o))) ODead = OStk cap (fst (kstep val cap l (KPop val))) /\
+          snd (step zero p (Pop o)) = kobs_ret (snd (kstep val cap l (KPop val)))) /\
+         (nth o (fst (step zero p (RemoveAll o))) ODead = OStk cap [] /\
+          snd (step zero p (RemoveAll o)) = RUnit) /\
+         snd (step zero p (GetCapacity o)) = RInt (Z.of_nat cap) /\ seq_plain (get p o) = Some l.
+Proof. exact pool_stack_step. Qed.
+
+(* non-vacuity at pool level: a stack built from a Go slice of two values with MakeFromArray (capacity 16),
+   one with capacity 1 pushed twice (the second push panics and changes nothing) *)
+Example C13_pool_example :
+  run (VInt 0 0) [] [NewSlice [VInt 0 1; VInt 0 2]; FromArray CStack 0; Push 1 (VInt 0 3); Pop 1;
+                     MakeCap CStack 1; Push 2 (VInt 0 7); Push 2 (VInt 0 8)] =
+    [OSlice [VInt 0 1; VInt 0 2]; OStk 16 [VInt 0 1; VInt 0 2]; OStk 1 [VInt 0 7]] /\
+  snd (step (VInt 0 0) [OStk 1 [VInt 0 7]] (Push 0 (VInt 0 8))) = RPanic /\
+  snd (step (VInt 0 0) [OStk 1 []] (Pop 0)) = RPanic.
+Proof. repeat split; vm_compute; reflexivity. Qed.
 
 
 Print Assumptions C13_never_exceeds_capacity.
@@ -50,3 +186,11 @@ Print Assumptions C13_pop_returns_most_recent.
 Print Assumptions C13_push_then_pop.
 Print Assumptions C13_panic_leaves_unchanged.
 Print Assumptions C13_constructor_capacity_covers_size.
+Print Assumptions C13_histories_compose.
+Print Assumptions C13_what_lies_below_is_never_touched.
+Print Assumptions C13_pop_returns_matching_push_for_every_interleaving.
+Print Assumptions C13_view_lists_top_to_bottom.
+Print Assumptions C13_popping_everything_yields_top_to_bottom.
+Print Assumptions C13_pool_constructors_within_capacity.
+Print Assumptions C13_pool_make_stack.
+Print Assumptions C13_pool_stack_ops_are_the_stack_machine.
